@@ -269,7 +269,7 @@ func init() {
 		c.Flag2 = c.Flag && r.Chance(1, 6)
 		return c
 	}
-	register(engine{name: "udpsrv", share: 60, gen: gen,
+	register(engine{name: "udpsrv", bubble: true, share: 60, gen: gen,
 		impl: func(c Case) string {
 			s := newUDPServer(c.Flag)
 			pkt := udpSrvPacket(c)
@@ -300,7 +300,7 @@ func init() {
 		line: udpSrvModelLine})
 
 	// client side: datagrams from the (hostile / impersonated) server
-	register(engine{name: "udpcli", share: 40,
+	register(engine{name: "udpcli", bubble: true, share: 40,
 		gen: func(r *common.Rng, i int) Case {
 			c := Case{Entry: "udpcli", Pre: true, PS: common.Pick(r, []int{0, 1, 300}), Patch: true, TsOff: common.Pick(r, tsOffsets), Csid: r.U64()}
 			c.Hex = hx(maybeMutate(r, udpServerMsg(r, baseNow, 0)))
